@@ -1352,8 +1352,11 @@ Proof.
     wpre (if negb compressed then parse_data_fields o dm (known_msg (dm_gmn dm)) msgv else
           s0 <- get_st ;;
           if ds_ts s0 =? 0 then parse_data_fields o dm (known_msg (dm_gmn dm)) msgv else
-          put_st (with_time s0 ((ds_ts s0 + (N.land b c_compressedTimeMask + 32 - ds_lastoff s0) mod 32) mod 2 ^ 32)
-                            (N.land b c_compressedTimeMask)) ;;;
+          put_st (if (ds_ts s0 + (N.land b c_compressedTimeMask + 32 - ds_lastoff s0) mod 32) mod 2 ^ 32 =? 0
+                  then with_quirk (with_time s0 ((ds_ts s0 + (N.land b c_compressedTimeMask + 32 - ds_lastoff s0) mod 32) mod 2 ^ 32)
+                                             (N.land b c_compressedTimeMask)) Q_TS_ZERO
+                  else with_time s0 ((ds_ts s0 + (N.land b c_compressedTimeMask + 32 - ds_lastoff s0) mod 32) mod 2 ^ 32)
+                                    (N.land b c_compressedTimeMask)) ;;;
           match get_field (dm_gmn dm) c_fieldNumTimeStamp with
           | Some p =>
               match msgv with
